@@ -284,6 +284,9 @@ func objQual(o types.Object) string {
 
 func funcQual(fn *types.Func) string {
 	fn = fn.Origin()
+	if old, ok := renamedBack[fn]; ok {
+		return old
+	}
 	sig, _ := fn.Type().(*types.Signature)
 	if sig != nil && sig.Recv() != nil {
 		return fn.Name()
